@@ -33,7 +33,7 @@ def gen(rng, i, tier):
     mixed = (i % 5 == 4)
     # every 8th case: parallel states whose initial list names a strict subset of their children (a transition may
     # then target a child that is not active while several siblings are)
-    c = hsm.gen_case(rng, p_parallel=(0.8 if i % 5 == 2 else 0.4), max_children=(4 if i % 5 == 2 else 3), single_scope=not mixed, max_events=2, p_subset=(0.7 if i % 8 == 5 else 0.0), p_enum=0.2, p_sep=0.15, p_queued=0.1, p_reuse=0.15)
+    c = hsm.gen_case(rng, p_parallel=(0.8 if i % 5 == 2 else 0.4), max_children=(4 if i % 5 == 2 else 3), single_scope=not mixed, max_events=2, p_subset=(0.7 if i % 8 == 5 else 0.0), p_enum=0.2, p_sep=0.15, p_queued=0.1, p_reuse=0.15, p_build=0.3)
     if i % 5 == 2:
         hsm.add_cross_region(c, rng)
     n = [0]
